@@ -807,4 +807,162 @@ def C19(c):
                          "interleaving of per-thread prefixes (bit-exact), and checks the final mean in f64 within 1e-3 relative tolerance -- the one clause of C19 that TLA+ does not decide")
 
 
-CHECKS = {"C19": C19, "C14": C14, "C05": C05, "C09": C09, "C03": C03, "C10": C10, "C17": C17, "C04": C04, "C07": C07, "C08": C08, "C16": C16, "C20": C20, "C02": C02, "C13": C13, "C18": C18, "C15": C15, "C01": C01}
+EXEC_C11 = ["InvItemStartedOnce", "InvConcurrencyLimit", "InvOneOutcomePerItem", "InvNoSpuriousCancel", "InvErrCallbackExactlyOnce", "InvAllItemsProcessed", "InvOutcomeMatches",
+            "InvCountersAddUp", "NoPanic"]
+EXEC_C12 = ["InvCloseCallbackOnce", "InvCloseCallbackAfterLastItem", "InvNoItemAfterClose", "InvEndedStatus", "InvFinishAfterStart", "InvUniCloseOnce", "InvSequentialTransition", "NoPanic"]
+EXEC_C06 = ["InvCloseWaits", "InvCloseReturnsTrue", "InvClosedAfterwards", "InvNoEventDiscarded", "InvLateEventOnlyToLiveListeners", "NoPanic"]
+EXEC_KINDS = ["fut_fallible", "fut", "fallible", "nonfut_fallible", "plain"]
+
+
+def exec_cases_c11(seed, quick):
+    import itertools, random
+    rng = random.Random(seed)
+    cases = []
+    maxlen = 3 if quick else 4
+    seqs = []
+    for ln in range(0, maxlen + 1):
+        seqs += list(itertools.product(["ok", "err", "slow", "slowerr"], repeat=ln))
+    if quick:
+        seqs = [s for s in seqs if len(s) <= 2] + rng.sample([s for s in seqs if len(s) == 3], 24)
+    k = 0
+    for kind in EXEC_KINDS:
+        fut = kind in ("fut_fallible", "fut")
+        for items in seqs:
+            for timeout in ((False, True) if fut else (False,)):
+                for instr in ((7, 0) if quick else (7, 0, 32, 103)):
+                    for limit in ((1, 2, 3) if fut else (1, 2)):
+                        if quick and rng.random() < 0.6 and len(items) == 3:
+                            continue
+                        n = len(items)
+                        order = list(range(n))
+                        rng.shuffle(order)          # items complete out of order
+                        k += 1
+                        cases.append({"id": "x%d_%s_%s_t%d_i%d_l%d" % (k, kind, "".join(i[0] if i != "slowerr" else "S" for i in items) or "none", int(timeout), instr, limit),
+                                      "fam": "exec", "kind": kind, "timeout": timeout, "instr": instr, "limit": limit, "items": list(items), "release": order, "runtime": "current"})
+    # the same futures on the multi-thread runtime (outcomes do not depend on timing: items are gated)
+    for i, c_ in enumerate(rng.sample(cases, 24 if quick else 200)):
+        if c_["kind"] in ("fut_fallible", "fut"):
+            d = dict(c_)
+            d["id"] = c_["id"] + "_mt"
+            d["runtime"] = "multi"
+            cases.append(d)
+    return cases
+
+
+def judge_exec(c, name, cases, trace, runs, v, consts):
+    by_id = {x["id"]: x for x in cases}
+    for x in v["mismatches"]:
+        c.tool_errors.append("the L1 trace spec Trace_AbsExecutor cannot read a recorded history of %s (line %d: %s)" % (name, x["line"], json.dumps(x["event"])[:300]))
+    for x in v["violations"]:
+        case = by_id[x["run"]["scn"]]
+        k = None
+        for kf in load_known_findings():
+            m = kf.get("match_exec")
+            if kf.get("status") == "open" and m and x["inv"] in m["invariants"] and case.get("fam") in m["fams"] and case.get("kind") in m["kinds"] and case.get("limit", 1) >= m["min_limit"]:
+                k = kf
+        if k is not None:
+            c.known_finding(k["id"], k.get("short", k["what"][:160]))
+            if not any(sm.get("id") == k["id"] for sm in c.samples):
+                c.sample({"kind": "known-finding trace", "id": k["id"], "case": case, "invariant": x["inv"]})
+            continue
+        c.violation("%s violated by the real code (case %s)" % (x["inv"], case["id"]),
+                    {"scenario": {"id": case["id"], "free": case, "sut": "exec"}, "run": x["run"], "events": extract_run(trace, x["run"]), "module": "Trace_AbsExecutor",
+                     "consts": {k2: tla_val(q) for k2, q in consts.items()}, "invariant": x["inv"], "recorded_only": False, "exec_case": case})
+
+
+def conform_exec(c, name, cases, checks):
+    consts = {"Checks": ['"%s"' % x for x in checks], "MaxId": 7777}
+    trace, runs, v = c.conform(None, name, "Trace_AbsExecutor", consts, exec_cases=cases)
+    judge_exec(c, name, cases, trace, runs, v, consts)
+    if runs:
+        r = runs[len(runs) // 3]
+        c.sample({"kind": "validated life-cycle history of the real executor (%s)" % name, "case": [x for x in cases if x["id"] == r["scn"]][0],
+                  "events": [{k: e[k] for k in ("k", "a", "b", "x")} for e in extract_run(trace, r)[:40]]})
+    return trace, runs, v
+
+
+def C11(c):
+    quick = c.tier == "quick"
+    c.mc("MC_Executor", "fut_l2", {"Limit": 2, "Futures": True, "Fallible": True, "TimeoutOn": True, "HasErrCb": True}, subst={"Items": "ItemsA"}, invariants=["InvInFlight", "InvOneOutcome", "InvErrCb", "InvCounters", "InvCloseOnceAtEnd"],
+         init="Init", next_="Next", required_actions=["Start", "FinishOk", "FinishErr", "TimeOut", "ErrCallback", "CloseCallback"], timeout=600, workers=6)
+    if not quick:
+        c.mc("MC_Executor", "fut_l3_D", {"Limit": 3, "Futures": True, "Fallible": True, "TimeoutOn": True, "HasErrCb": True}, subst={"Items": "ItemsD"},
+             invariants=["InvInFlight", "InvOneOutcome", "InvErrCb", "InvCounters", "InvCloseOnceAtEnd"], init="Init", next_="Next", timeout=600, workers=6)
+    c.mc("MC_Executor", "fut_l3_nt", {"Limit": 3, "Futures": True, "Fallible": True, "TimeoutOn": False, "HasErrCb": True}, subst={"Items": "ItemsB"}, invariants=["InvInFlight", "InvOneOutcome", "InvErrCb", "InvCounters", "InvCloseOnceAtEnd"],
+         init="Init", next_="Next", required_actions=["Start", "FinishOk", "FinishErr", "ErrCallback", "CloseCallback"], timeout=600, workers=6)
+    c.mc("MC_Executor", "plain_l1", {"Limit": 1, "Futures": False, "Fallible": False, "TimeoutOn": False, "HasErrCb": False}, subst={"Items": "ItemsC"}, invariants=["InvInFlight", "InvOneOutcome", "InvErrCb", "InvCounters", "InvCloseOnceAtEnd"],
+         init="Init", next_="Next", required_actions=["Start", "FinishOk", "CloseCallback"], timeout=600, workers=6)
+    cases = exec_cases_c11(c.seed * 17, quick)
+    conform_exec(c, "executors", cases, EXEC_C11 + ["InvCloseCallbackOnce"])
+    c.assumptions.append("item futures wait on gates owned by the driver (no timing dependence); a 'slow' item under a timeout is a future that never completes and must be cancelled (drop guard); "
+                         "current-thread runtime with paused (virtual) clock, plus the multi-thread runtime for a sample of the futures cases")
+
+
+UNI_CHANS = ["move_atomic", "move_fullsync", "move_crossbeam", "zc_atomic", "zc_fullsync"]
+MULTI_CHANS = ["arc_atomic", "arc_fullsync", "arc_crossbeam", "ogre_atomic", "ogre_fullsync", "mmap"]
+
+
+def lifecycle_cases(quick, seed):
+    import random
+    rng = random.Random(seed)
+    cases = []
+    k = 0
+    for chan in UNI_CHANS:
+        for s_ in (1, 2):
+            for kind in ("fut_fallible", "fut", "fallible", "plain"):
+                for limit in ((1, 2) if quick else (1, 2, 3, 4)):
+                    if kind in ("fallible", "plain") and limit > 1:
+                        continue
+                    for events in ([], [11], [11, 12, 13]):
+                        if quick and rng.random() < 0.5 and events:
+                            continue
+                        k += 1
+                        cases.append({"id": "u%d_%s_s%d_%s_l%d_e%d" % (k, chan, s_, kind, limit, len(events)), "fam": "uni", "chan": chan, "s": s_, "kind": kind, "timeout": False, "limit": limit,
+                                      "events": events, "slow": [], "fails": [12] if kind in ("fut_fallible", "fallible") else [], "runtime": "current"})
+    for chan in MULTI_CHANS:
+        for listeners in (1, 2):
+            for limit in ((1, 2) if quick else (1, 2, 3)):
+                for events in ([11], [11, 12, 13]):
+                    for mode in ("close", "cancel_one"):
+                        if mode == "cancel_one" and listeners == 1:
+                            continue
+                        k += 1
+                        cases.append({"id": "m%d_%s_L%d_l%d_e%d_%s" % (k, chan, listeners, limit, len(events), mode), "fam": "multi", "chan": chan, "kind": "fut_fallible", "limit": limit, "listeners": listeners,
+                                      "events": events, "old_events": [], "fails": [12], "mode": mode, "sequential": False, "runtime": "current"})
+    for sequential in (True, False):
+        for limit in (1, 2):
+            for old, new in (([11, 12], [21, 22]), ([11], [21]), ([], [21]), ([11, 12], [])):
+                k += 1
+                cases.append({"id": "m%d_mmap_oldies_seq%d_l%d_o%dn%d" % (k, int(sequential), limit, len(old), len(new)), "fam": "multi", "chan": "mmap", "kind": "fut_fallible", "limit": limit, "listeners": 2,
+                              "events": new, "old_events": old, "fails": [], "mode": "oldies", "sequential": sequential, "runtime": "current"})
+    extra = []
+    for c_ in rng.sample(cases, 16 if quick else 120):
+        d = dict(c_)
+        d["id"] = c_["id"] + "_mt"
+        d["runtime"] = "multi"
+        extra.append(d)
+    return cases + extra
+
+
+def C12(c):
+    quick = c.tier == "quick"
+    c.mc("MC_Executor", "life_fut", {"Limit": 2, "Futures": True, "Fallible": True, "TimeoutOn": False, "HasErrCb": True}, subst={"Items": "ItemsC"}, invariants=["InvCloseOnceAtEnd", "InvStatus", "InvOneOutcome"],
+         init="Init", next_="Next", required_actions=["Start", "CloseCallback", "StreamEnds"], timeout=600, workers=6)
+    c.mc("UniLatch", "latch3", {"S": 3}, invariants=["InvFiresOnce", "InvFiresAfterAll"], init="Init", next_="Next", required_actions=["FetchSub", "Fire"], timeout=600, workers=6)
+    cases = [x for x in exec_cases_c11(c.seed * 19, True) if len(x["items"]) <= 2][:150] + lifecycle_cases(quick, c.seed * 23)
+    conform_exec(c, "lifecycle", cases, EXEC_C12)
+
+
+def C06(c):
+    quick = c.tier == "quick"
+    c.mc("CloseProto", "close_fut_l2", {"Limit": 2, "NEvents": 2, "WaitExecutors": False}, invariants=["InvTypes"], properties=[], init="Init", next_="Next",
+         required_actions=["Pull", "Finish", "CloseReturns"], timeout=600, workers=6)
+    r = c.mc("CloseProto", "close_strict", {"Limit": 2, "NEvents": 1, "WaitExecutors": False}, invariants=["InvCloseWaits"], init="Init", next_="Next", expect="kf", timeout=600, workers=6)
+    if r["ok"]:
+        c.notes.append("the recorded finding KF-C06 is no longer reproduced by the CloseProto model")
+    c.mc("CloseProto", "close_l1", {"Limit": 1, "NEvents": 2, "WaitExecutors": False}, invariants=["InvCloseWaits"], init="Init", next_="Next", required_actions=["Pull", "Finish", "CloseReturns"], timeout=600, workers=6)
+    c.mc("CloseProto", "close_repaired", {"Limit": 3, "NEvents": 2, "WaitExecutors": True}, invariants=["InvCloseWaits"], init="Init", next_="Next", required_actions=["Pull", "Finish", "CloseReturns"], timeout=600, workers=6)
+    conform_exec(c, "close", lifecycle_cases(quick, c.seed * 29), EXEC_C06)
+
+
+CHECKS = {"C11": C11, "C12": C12, "C06": C06, "C19": C19, "C14": C14, "C05": C05, "C09": C09, "C03": C03, "C10": C10, "C17": C17, "C04": C04, "C07": C07, "C08": C08, "C16": C16, "C20": C20, "C02": C02, "C13": C13, "C18": C18, "C15": C15, "C01": C01}
